@@ -4,6 +4,7 @@ C14 — subscription data reaches only its own channel, in order, once; the chan
 import Genq.Model.Ws
 import Genq.Proofs.WsInv
 import Genq.Proofs.WsData
+import Genq.Proofs.WsPrefix
 namespace Genq.Ws
 
 /-- **C14_nothing_after_end** — once a subscription has ended (server `complete` processed,
@@ -55,12 +56,23 @@ theorem C14_pinned_next_after_complete_witness :
     (run Flags.pinned init [.subscribe, .step 0, .rstep, .server (.complete 0), .rstep,
       .server (.next 0 5 true), .rstep]).panic = some (.sendOnClosed 0) := by decide
 
-/-- The full in-order/exactly-once statement (not yet proved in Lean for all event lists; it is
-    checked on every correspondence run): what the application received on a channel is a prefix
-    of the `next` payloads the reader dispatched to that entry. -/
-def C14_prefix_in_order_full : Prop :=
-  ∀ (order : List SubId) (evs : List Ev) (i : SubId) (s : Sub),
-    (run Flags.fixed { init with closeOrder := order } evs).subs[i]? = some s → s.delivered <+: s.nexts
+/-- **C14_prefix_in_order** — for every event list (any interleaving of application calls, reader
+    steps, server frames, write failures and receives): what the application has received on a
+    channel is a prefix of the `next` payloads the reader dispatched to that entry — delivered in
+    order, none twice, none invented, none from another subscription's frames. -/
+theorem C14_prefix_in_order (order : List SubId) (evs : List Ev) (i : SubId) (s : Sub)
+    (hs : (run Flags.fixed { init with closeOrder := order } evs).subs[i]? = some s) :
+    s.delivered <+: s.nexts := by
+  have h := run_pinv { init with closeOrder := order } evs (init_pinv order)
+  exact prefix_of_entryOK _ i s (h.1 i s hs)
+
+/-- … and at most one dispatched payload is still undelivered (the one the reader is blocked on):
+    the reader never runs ahead of the application. -/
+theorem C14_at_most_one_in_flight (order : List SubId) (evs : List Ev) (i : SubId) (s : Sub)
+    (hs : (run Flags.fixed { init with closeOrder := order } evs).subs[i]? = some s) :
+    s.nexts = s.delivered ∨ ∃ p, s.nexts = s.delivered ++ [p] := by
+  have h := run_pinv { init with closeOrder := order } evs (init_pinv order)
+  exact entryOK_done _ i s (h.1 i s hs)
 
 -- non-vacuity: a run that delivers two payloads in order and then ends the subscription
 example : ((run Flags.fixed init [.subscribe, .step 0, .rstep, .server (.next 0 1 true), .recvData 0, .rstep,
